@@ -2,6 +2,7 @@
    links replaced by a copy of their target), the entry points built on it, the witnesses of the corners where the
    code does not, and cgnsdiff's comparison. *)
 From Coq Require Import ZArith List Bool Lia Permutation.
+From Flocq Require Import IEEE754.Binary IEEE754.Bits.
 From CgnsV Require Import ListX Copy.
 Import ListNotations.
 Local Open Scope Z_scope.
@@ -1106,3 +1107,15 @@ Lemma save_as_convert_preserve fuel w src dst dst_hdf5 r :
 Proof. intros; split; apply do_copy_file_nofollow; assumption. Qed.
 Lemma follow_succeeds_somewhere : exists w', cgnsconvert 4 worldAB [65] [67] false true = Ok w'.
 Proof. eexists. vm_compute. reflexivity. Qed.
+
+(* cgnsdiff -d -t1e-6 on the doubles (2.0) and (NaN): "fabs(a-b) > tol" is false for a NaN, nothing is reported
+   (with the default tolerance 0 the bytes are compared and the difference IS reported: compare_data) *)
+Lemma diff_tol_nan_blind :
+  exists d1 d2 tol, d1 <> d2 /\ Binary.is_nan 53 1024 (b64_of_bits d2) = true /\
+                    compare_doubles tol [d1] [d2] = false /\
+                    compare_data true [47;97] [47;97] (Node [97] [] [82;56] [1] [0;0;0;0;0;0;0;64] [])
+                                                      (Node [97] [] [82;56] [1] [0;0;0;0;0;0;248;127] []) = [DData [47;97] [47;97]].
+Proof.
+  exists 0x4000000000000000, 0x7ff8000000000000, 0x3eb0c6f7a0b5ed8d.
+  split; [discriminate|]. split; [vm_compute; reflexivity|]. split; vm_compute; reflexivity.
+Qed.
